@@ -456,3 +456,57 @@ func crossCallWrites(p *Prog, ms *mutationSummary, g *ssa.Global, funcs []*ssa.F
 	sort.Strings(w)
 	return w
 }
+
+// noCrossCallState reports, under rule rid, every package-level variable that a call leaves state in (in reach of the
+// library's entry points). why completes the sentence "... so <why>".
+func noCrossCallState(c *Ctx, rid, title, why string) {
+	r, p := c.R, c.P
+	r.Rule(rid, title, 1)
+	entries := libraryEntries(p)
+	var funcs []*ssa.Function
+	for f := range p.Reach(entries...) {
+		funcs = append(funcs, f)
+	}
+	sort.Slice(funcs, func(i, j int) bool { return FuncKey(funcs[i]) < FuncKey(funcs[j]) })
+	ms := newMutationSummary(p)
+	n := 0
+	for _, g := range moduleGlobals(p) {
+		if w := crossCallWrites(p, ms, g, funcs); len(w) > 0 {
+			n++
+			if len(w) > 3 {
+				w = append(w[:3], fmt.Sprintf("... %d more", len(w)-3))
+			}
+			r.Bad(rid, globalKey(g), p.Pos(g.Pos()), "a call leaves state in this package-level variable ("+strings.Join(w, "; ")+"), so "+why)
+		}
+	}
+	r.OK(rid, "census", "", fmt.Sprintf("%d package-level variables examined over %d functions in reach of the entry points: %d hold cross-call state", len(moduleGlobals(p)), len(funcs), n))
+}
+
+// locksReleasedByDefer reports, under rule rid, every sync lock taken in funcs whose unlock is neither deferred nor the
+// very next call.
+func locksReleasedByDefer(c *Ctx, rid, title, why string, funcs []*ssa.Function) {
+	r, p := c.R, c.P
+	r.Rule(rid, title, 1)
+	n := 0
+	for _, f := range funcs {
+		ord := ordinal{}
+		for _, b := range f.Blocks {
+			for _, ins := range b.Instrs {
+				ci, ok := ins.(ssa.CallInstruction)
+				if !ok {
+					continue
+				}
+				name := funcFullName(ssaCalleeObj(ci))
+				switch name {
+				case "(*sync.Mutex).Lock", "(*sync.RWMutex).Lock", "(*sync.RWMutex).RLock":
+					n++
+					k := ord.next(FuncKey(f) + "#" + name)
+					r.Check(unlockDeferredOrFollows(f, ci), rid, k, p.Pos(ins.Pos()), "the lock is released by a deferred unlock (or by the very next call)", "the unlock is neither deferred nor the next call: a panic raised while the lock is held is turned into an error further up, the lock stays held, and "+why)
+				}
+			}
+		}
+	}
+	if n == 0 {
+		r.OK(rid, "census", "", fmt.Sprintf("%d functions scanned: no sync lock is taken", len(funcs)))
+	}
+}
